@@ -67,6 +67,8 @@ def check(prog: Program, rep):
     semantic.flag_consumers(prog, rep, "C02.R2", FLOW_MODELS)
     for c in FLOW_MODELS:
         semantic.helper_preconditions(prog, rep, "C02.R2", c)
+    from rules.common import helpers_exact
+    helpers_exact(prog, rep, "C02.R2")
     rep.rule("C02.R3", "numeric type of weights; weight bound provider", floor=6)
     providers.numeric_type(prog, rep, "C02.R3", FLOW_MODELS)
     providers.wmax_provider(prog, rep, "C02.R3", FLOW_MODELS)
@@ -83,3 +85,6 @@ def check(prog: Program, rep):
     rep.rule("C02.R6", "the model's ignore set / options derive only from this call's arguments (no write to caller objects or shared defaults)", floor=4)
     from rules.c18 import class_inputs_not_mutated
     class_inputs_not_mutated(prog, rep, "C02.R6", FLOW_MODELS)
+    rep.rule("C02.R7", "node-weighted input: expansion scheme, attribute handling (missing => ignored, present incl. 0 => weighted)", floor=12)
+    from rules.common import node_mode_plumbing
+    node_mode_plumbing(prog, rep, "C02.R7")
